@@ -259,7 +259,7 @@ def observe_hill(arg):
 
 # ---- C02: pool histories ----------------------------------------------------
 BASE_BAGS = {"CH4": [(1, 1), (2, 4)], "H2O": [(2, 2), (3, 1)], "Fe3O4": [(4, 1), (5, 2), (3, 4)], "D2O18": [(7, 2), (6, 1)],
-             "hydrate": None, "half": [(2, 0.5), (3, 1.5)], "H": [(2, 1)]}
+             "hydrate": None, "zero": None, "half": [(2, 0.5), (3, 1.5)], "H": [(2, 1)]}
 
 
 def _base(how, b, ats, T):
@@ -268,12 +268,24 @@ def _base(how, b, ats, T):
     A = lambda i: atom(ats[i - 1][0], ats[i - 1][1], ats[i - 1][2], T)
     R = lambda i: ats[i - 1][3]
     tab = _tab(T) if T else None
+    variant = sum(a[0] + a[1] + a[2] for a in ats) % 4      # spelling variant, fixed by the atoms of the history
     if b == "hydrate":
         if how == "str":
-            return P.formula("%s%s3+6%s2%s" % (R(1), R(3), R(2), R(3)), table=tab)
+            carb, water = "%s%s3" % (R(1), R(3)), "6%s2%s" % (R(2), R(3))
+            s = [carb + "+" + water, water + " " + carb, carb + " " + water, water + "+" + carb][variant]
+            return P.formula(s, table=tab)
         if how == "dict":
             return P.formula({A(1): 1, A(3): 9, A(2): 12})
         return P.formula([(1, A(1)), (3, A(3)), (6, [(2, A(2)), (1, A(3))])])
+    if b == "zero":           # C O0 H2: a member with count zero contributes nothing
+        if how == "str":
+            ztxt = ["0.0", "0.", ".0", "0.00"][variant]
+            s = ["%s%s%s%s2" % (R(1), R(3), ztxt, R(2)), "%s(%s%s)%s%s2" % (R(1), R(3), R(2), ztxt, R(2)),
+                 "%s%s2+%s%s" % (R(1), R(2), ztxt, R(3)), "%s%s%s %s2" % (R(1), R(3), ztxt, R(2))][(variant + ats[0][0]) % 4]
+            return P.formula(s, table=tab)
+        if how == "dict":
+            return P.formula({A(1): 1, A(3): 0.0, A(2): 2})
+        return P.formula([(1, A(1)), (0, [(1, A(3)), (2, A(2))]), (2, A(2))])
     pairs = BASE_BAGS[b]
     if how == "atom":
         return P.formula(A(pairs[0][0]))
